@@ -1,7 +1,9 @@
 //! uec-harness: correspondence harness between /repo's crates and the Lean models.
 mod driver;
 mod fam_sel;
+mod fam_lex;
 mod fam_stack;
+mod fam_wsel;
 mod mutants;
 mod selcommon;
 mod prims;
@@ -38,10 +40,12 @@ fn main() {
         i += 1;
     }
     // keep panics of the code under test quiet; they are caught and reported per case
-    std::panic::set_hook(Box::new(|_| {}));
+    if std::env::var("UEC_LOUD").is_err() { std::panic::set_hook(Box::new(|_| {})); }
     let rep = match fam.as_str() {
         "stack" => fam_stack::run(&cfg),
         "sel" => fam_sel::run(&cfg),
+        "wsel" => fam_wsel::run(&cfg),
+        "lex" => fam_lex::run(&cfg),
         f => { eprintln!("unknown family {f}"); std::process::exit(2) }
     };
     let js = serde_json::to_string_pretty(&rep.to_json()).unwrap();
